@@ -48,6 +48,8 @@ def handler(kind):
 
 
 def make_plan(w: World, op: dict) -> Plan:
+    if op["k"] not in HANDLERS:
+        from . import ops_copy  # noqa: F401 - registers handlers
     return HANDLERS[op["k"]](w, op)
 
 
